@@ -41,3 +41,7 @@ func vpH_C08_refuse() {
 	}
 	vpCover(w.joined && w.hasBO[i] && w.now.Equal(w.boExp[i]) && w.inMeshNow(i) && !w.mesh[i], "GRAFT exactly at expiry is admitted")
 }
+
+// no_early_graft (Join): the GRAFT-emitting site Join (fresh and fanout promotion) never grafts a backed-off peer.
+// (Shared with C07_join, whose assertions include "promoted unless backed off" and "only adds peers ... not backed off".)
+func vpH_C08_join_no_early_graft() { vpH_C07_join() }
